@@ -23,6 +23,7 @@ type gen struct {
 	r    *rand.Rand
 	uniq int
 	tags []string
+	pre  []N // statements for the top of the program (an error object created there, thrown elsewhere)
 }
 
 func (g *gen) pick(n int) int    { return g.r.Intn(n) }
@@ -207,6 +208,12 @@ func (g *gen) errorConstruct(kind string) []N {
 			return []N{c01.Throw(c01.New(id(cls)))}
 		case 3:
 			return []N{c01.Throw(c01.New(id(cls), num(42)))}
+		case 4:
+			// created at the top of the program, thrown here: the trace is the one of its creation
+			g.tag("precreated")
+			e := g.fresh("pe")
+			g.pre = append(g.pre, c01.Var(e, c01.New(id(cls), str(msgs[g.pick(len(msgs))]))))
+			return []N{c01.Throw(id(e))}
 		default:
 			// an error object created here, modified, then thrown
 			e := g.fresh("e")
@@ -371,6 +378,7 @@ type Scenario struct {
 
 func (g *gen) scenario(i int) Scenario {
 	g.tags = nil
+	g.pre = nil
 	g.uniq = 0
 	kind := ErrKinds[i%len(ErrKinds)]
 	if g.chance(20) {
@@ -444,7 +452,7 @@ func (g *gen) scenario(i int) Scenario {
 			body = append(body, c01.Expr(c01.Call(id("z"))))
 		}
 	}
-	prog := append([]N{c01.FDecl("z", nil)}, body...)
+	prog := append(append([]N{c01.FDecl("z", nil)}, g.pre...), body...)
 	limits := []int{10, 10, 10, 0, 1, 2, 3, 4, 5, 6, 7, 8, 9, 11, 12, depth + 1, depth + 2, depth, 2, 1}
 	tl := limits[g.pick(len(limits))]
 	if tl < 0 {
